@@ -67,6 +67,8 @@ def main():
             jobs.append((parts[-3].replace(".out", "") + "-" + parts[-2], d, props))
     for d in ([] if a.glob else sorted(glob.glob("/verif/seeded/*/patch.diff"))):
         jobs.append((os.path.basename(os.path.dirname(d)), d, props))
+    for d in ([] if a.glob else sorted(glob.glob("/verif/controls/H*.diff"))):
+        jobs.append((os.path.basename(d)[:-5], d, props))
     for d in ([] if a.glob else sorted(glob.glob("/verif/regress/R*.diff"))):
         jobs.append((os.path.basename(d)[:-5], d, props))
     if a.only:
